@@ -44,6 +44,7 @@ structure Obj where
   aslots : List (Option Action) := []   -- kind = map: slot-map storage, in slot order
   afree : List Nat := []                -- kind = map: free slot indices (LIFO)
   borrowed : Bool := false              -- kind = map: the `RefCell` is mutably borrowed
+  doomed : Bool := false                -- ghost (no counterpart in the code): the collector started destroying the set it belongs to
   deriving Repr, Inhabited
 
 /-- Weak side record (`BoxedMetadata`), keyed by the id of the object it was created for. -/
@@ -305,9 +306,12 @@ def dropMetadata (w : World) (x : Id) : World :=
     else w.updMeta x fun m => { m with accessible := false }
   else w
 
-/-- `cc_dealloc` -/
+/-- `cc_dealloc`. The memory is gone: the identity keeps no counter or mark (nothing can observe them;
+stated so that "a freed box has count 0 and no mark" holds by construction and the invariants can
+speak about every identity). -/
 def freeBox (w : World) (x : Id) : World :=
-  ({ (w.upd x fun o => { o with boxLive := false }) with allocBytes := w.allocBytes - (w.heap x).size }).emit (.free x)
+  ({ (w.upd x fun o => { o with boxLive := false, rc := 0, tc := 0, mark := .non }) with
+      allocBytes := w.allocBytes - (w.heap x).size }).emit (.free x)
 
 /-- `Weak::drop` -/
 def weakDrop (w : World) (r : WRef) : World :=
@@ -740,6 +744,8 @@ def execOp (c : Cfg) (w : World) (self wc : Option Id) (op : Op) : World :=
 /-- Beginning of `deallocate_list`. -/
 def startDealloc (c : Cfg) (w : World) (N : List Id) : World :=
   let w' := { (w.push (.deallocDrop N N w.dropping)) with dropping := true }
+  -- ghost marking, so that invariants can speak about "the sets the collector has condemned" also after an unwinding
+  let w' := w'.updAll N fun o => { o with doomed := true }
   if c.weak then w'.updAll N fun o => { o with dropped := true } else w'
 
 /-- `Cc::drop`, last owner, after the optional finalizer: the count goes to 0, the object leaves the
